@@ -268,6 +268,40 @@ pub fn gen_driver(prop: &str, rng: &mut Rng, sh: &mut Shards, out: &str, thoroug
             progs.extend(muts.into_iter().enumerate().filter(|(i, _)| i % 3 == 0).map(|(_, x)| x));
         }
         "C17" => {
+            // every flag alone, and every flag alone clear, shown by a print statement and by a prompt command; every
+            // register alone holding a value that no other register holds
+            let statusbits: [u16; 8] = [0x0001, 0x0004, 0x0010, 0x0040, 0x0080, 0x0200, 0x0400, 0x0800];
+            for (bi, b) in statusbits.iter().enumerate() {
+                for inv in [false, true] {
+                    let w: u16 = if inv { (0x0ED5 & !*b) | 0xF000 } else { *b };
+                    let mut items: Vec<Item> = vec![Item::Label("start".into())];
+                    items.push(Item::Ins(Ins::Mov { w: 16, dst: Opnd::Reg16("ax"), src: Opnd::Imm(w as i32) }));
+                    items.push(Item::Ins(Ins::Push { src: Opnd::Reg16("ax") }));
+                    items.push(Item::Ins(Ins::FlagsX { op: "popf" }));
+                    items.push(Item::Ins(Ins::Print { what: PrintWhat::Flags }));
+                    items.push(Item::Ins(Ins::Int { n: 3 }));
+                    items.push(Item::Ins(Ins::Print { what: PrintWhat::Reg }));
+                    let stdin = vec![ScriptLine { raw: if bi % 2 == 0 { "print flags".into() } else { "PRINT FLAGS".into() }, newline: true, cls: "print", what: Some(PrintWhat::Flags) }, ScriptLine::next(rng)];
+                    progs.push((Program { data: Vec::new(), items, interp: false, stdin, note: format!("one-flag-{}-{}", bi, inv) }, Layout::plain()));
+                }
+            }
+            let regnames = ["ax", "bx", "cx", "dx", "si", "di", "bp", "sp"];
+            for (ri, r) in regnames.iter().enumerate() {
+                let mut items: Vec<Item> = vec![Item::Label("start".into())];
+                items.push(Item::Ins(Ins::Mov { w: 16, dst: Opnd::Reg16(r), src: Opnd::Imm(0xA0B1 + ri as i32 * 0x0101) }));
+                items.push(Item::Ins(Ins::Print { what: PrintWhat::Reg }));
+                items.push(Item::Ins(Ins::Int { n: 3 }));
+                let stdin = vec![ScriptLine { raw: "print reg".into(), newline: true, cls: "print", what: Some(PrintWhat::Reg) }, ScriptLine::next(rng)];
+                progs.push((Program { data: Vec::new(), items, interp: false, stdin, note: format!("one-register-{}", r) }, Layout::plain()));
+            }
+            for (si, sr) in ["ds", "es", "ss"].iter().enumerate() {
+                let mut items: Vec<Item> = vec![Item::Label("start".into())];
+                items.push(Item::Ins(Ins::Mov { w: 16, dst: Opnd::Reg16("ax"), src: Opnd::Imm(0x1C2D + si as i32 * 0x1111) }));
+                items.push(Item::Ins(Ins::Mov { w: 16, dst: Opnd::Sreg(sr), src: Opnd::Reg16("ax") }));
+                items.push(Item::Ins(Ins::Mov { w: 16, dst: Opnd::Reg16("ax"), src: Opnd::Imm(0) }));
+                items.push(Item::Ins(Ins::Print { what: PrintWhat::Reg }));
+                progs.push((Program { data: Vec::new(), items, interp: false, stdin: Vec::new(), note: format!("one-register-{}", sr) }, Layout::plain()));
+            }
             for i in 0..(200 * scale) {
                 let mut g = Gen::new(rng);
                 let mut k = Knobs::control();
